@@ -7,8 +7,11 @@ pub use crate::time_control::*;
 pub use crate::utils::*;
 use crate::zobrist::ZobristHasher;
 use log::{error, info};
+#[cfg(not(feature = "verif_loom"))]
 use std::io::{self, BufRead};
 use std::process;
+#[cfg(feature = "verif_loom")]
+use crate::sched::io::{self, BufRead};
 #[cfg(feature = "verif_loom")]
 use crate::sched::{mpsc, thread};
 #[cfg(not(feature = "verif_loom"))]
